@@ -348,6 +348,20 @@ def run_poll(prop, spec, loop_seed):
                 continue
             out.count('job states polled')
             where = "%s at t=%s%s" % (vid, now, " (after the run)" if final else "")
+            # ground truth for "scheduled": the loop's task factory saw a task
+            # created for this job (task._job is the back-reference the library
+            # installs itself right after creating the task)
+            from .jobs import job_of_task
+            owners = [job_of_task(t, reg) for t in loop.created_tasks]
+            truly_scheduled = any(o is job for o in owners)
+            have_backref = any(o is not None and o is not reg[top_id] for o in owners)
+            if have_backref:
+                out.count('is_scheduled() compared with task creation')
+            if have_backref and (bool(sch) != truly_scheduled or bool(idle) == truly_scheduled):
+                out.violation('scheduled-truth', "%s: is_scheduled()=%r is_idle()=%r but a task %s created for it"
+                              % (where, sch, idle, "was" if truly_scheduled else "was never"))
+            if truly_scheduled and not ent and not can and not final:
+                out.count('jobs seen scheduled (task created) but not yet running')
             kindtag = 'nested scheduler' if hasattr(job, 'jobs') else \
                 ('coroutine Job' if hasattr(job, 'corun') else 'AbstractJob subclass')
             if bool(done) != bool(ret or rai):
